@@ -42,6 +42,7 @@ type streamInst struct {
 	// shortTail: a Write may end with a short block after full blocks (Merkle–Damgård wrapper).
 	shortTail bool
 	mimc      *ref.MiMC
+	idName    string // name of the hash.Hash identifier the "registry" constructor goes through
 }
 
 func mimcStream(m *mimcInst) *streamInst {
@@ -50,7 +51,7 @@ func mimcStream(m *mimcInst) *streamInst {
 		name: m.name, kind: "mimc", blockSize: m.blockSize, elemBytes: m.blockSize, fs: fieldSpec(frName(m.curve)),
 		ctors: []ctor{{"default", false, m.newDef}, {"BE", false, m.newBE}, {"LE", true, m.newLE},
 			{"registry", false, func() hash.StateStorer { return m.id.New().(hash.StateStorer) }}},
-		iv: make([]byte, m.blockSize), digestSize: m.blockSize, mimc: R,
+		iv: make([]byte, m.blockSize), digestSize: m.blockSize, mimc: R, idName: m.id.String(),
 		absorb: func(state, p []byte, le bool) ([]byte, bool) {
 			bl, err := R.Blocks(p, le)
 			if err != nil {
@@ -72,7 +73,7 @@ func mdStream(p *p2Inst) *streamInst {
 	return &streamInst{
 		name: p.name, kind: "md", blockSize: bs, elemBytes: spec.ElemBytes, fs: fieldSpec(frName(p.field)),
 		ctors: []ctor{{"direct", false, p.newMD}, {"registry", false, func() hash.StateStorer { return p.id.New().(hash.StateStorer) }}},
-		iv:    md.IV, digestSize: bs, shortTail: true,
+		iv:    md.IV, digestSize: bs, shortTail: true, idName: p.id.String(),
 		absorb: func(state, w []byte, _ bool) ([]byte, bool) {
 			s, err := md.Absorb(state, md.Split(w))
 			return s, err == nil
@@ -152,11 +153,12 @@ type machine struct {
 	between  bool // a Sum/State/SetState/Reset happened between two writes
 	lastWasW bool
 	nontriv  bool
+	tag      string // instance label in multi-instance histories
 }
 
 func (m *machine) logf(f string, a ...interface{}) { m.log = append(m.log, fmt.Sprintf(f, a...)) }
 func (m *machine) fail(f string, a ...interface{}) {
-	m.t.Fatalf("%s[%s] after {%s}: %s", m.si.name, m.c.name, strings.Join(m.log, "; "), fmt.Sprintf(f, a...))
+	m.t.Fatalf("%s[%s]%s after {%s}: %s", m.si.name, m.c.name, m.tag, strings.Join(m.log, "; "), fmt.Sprintf(f, a...))
 }
 
 func (m *machine) reset() {
@@ -413,6 +415,10 @@ func (m *machine) setState() {
 	if m.si.validState != nil && m.si.validState(s) != valid {
 		t.Fatalf("HARNESS: state validity")
 	}
+	if rapid.IntRange(0, 2).Draw(t, "stspare") == 0 { // the state slice is the prefix of a larger poisoned array
+		_, s = withSpare(t, s, m.si.blockSize)
+		m.classes["setstate:spare_capacity_poison"] = true
+	}
 	keep := append([]byte{}, s...)
 	m.logf("SetState(%s %x)", kind, trunc(s))
 	var err error
@@ -450,6 +456,9 @@ func (m *machine) writeString() {
 	}
 	m.ensureDefined()
 	raw := rapid.SliceOfN(rapid.Byte(), 0, 70).Draw(m.t, "raw")
+	if rapid.Bool().Draw(m.t, "rawspare") {
+		_, raw = withSpare(m.t, raw, m.si.blockSize)
+	}
 	m.logf("WriteString(%x)", trunc(raw))
 	var err error
 	if msg := guard(func() { err = ws.WriteString(raw) }); msg != "" {
